@@ -41,6 +41,7 @@ type CallEnv struct {
 	seenSeq        int
 	Hook           func(ctx context.Context, n *NodeSpec, tag string, in string) // optional extra instrumentation
 	Cancel         context.CancelFunc                                            // called by a body with Fault == cancel
+	Prod           *Producers                                                    // non-nil: streams come from real producer goroutines (C19)
 }
 
 // Event is the start or the end of one body execution.
@@ -323,6 +324,9 @@ func mkLambda[I any](n *NodeSpec, tag string) *compose.Lambda {
 		if n.Fault == "streamerr" {
 			return streamOf(parts, len(parts)/2, fmt.Errorf("wrapped: %w", &InjectedError{Node: tag}))
 		}
+		if env := EnvOf(ctx); env != nil && env.Prod != nil {
+			return StartProducer(env.Prod, tag, parts)
+		}
 		return streamOf(parts, -1, nil)
 	}
 	inv := func(ctx context.Context, in I, _ ...any) (string, error) {
@@ -371,6 +375,24 @@ func mkLambda[I any](n *NodeSpec, tag string) *compose.Lambda {
 		return nodeBody(ctx, Canon(v))
 	}
 	tra := func(ctx context.Context, in *schema.StreamReader[I], _ ...any) (*schema.StreamReader[string], error) {
+		if env := EnvOf(ctx); env != nil && env.Prod != nil && env.Prod.Lazy && n.Fault == "" {
+			// a lazy transformer: the input is read by the producer goroutine of the output
+			return StartLazyProducer(env.Prod, tag, func() ([]string, error) {
+				cs, err := drain(in)
+				if err != nil {
+					return nil, err
+				}
+				v, err := ConcatAny(cs)
+				if err != nil {
+					return nil, err
+				}
+				s, err := nodeBody(ctx, Canon(v))
+				if err != nil {
+					return nil, err
+				}
+				return chunk(s, chunks), nil
+			}), nil
+		}
 		cs, err := drain(in)
 		if err != nil {
 			return nil, err
@@ -513,6 +535,14 @@ func mkBranch[T any](sp *Spec, b *Branch, path string, bo *BuildOpts) *compose.G
 	}
 	if b.Stream {
 		cond := func(ctx context.Context, in *schema.StreamReader[T]) (map[string]bool, error) {
+			if b.Prefix && b.Force != nil {
+				_, err := in.Recv()
+				in.Close()
+				if err != nil && err != io.EOF {
+					return nil, err
+				}
+				return decide(""), nil
+			}
 			cs, err := drain(in)
 			if err != nil {
 				return nil, err
@@ -862,6 +892,13 @@ func Erase[I, O any](sp *Spec, r compose.Runnable[I, O]) *Runner {
 			sr, err := fromChunks[I](chunks)
 			if err != nil {
 				return nil, err
+			}
+			if env := EnvOf(ctx); env != nil && env.Prod != nil {
+				arr := make([]I, 0, len(chunks))
+				for _, c := range chunks {
+					arr = append(arr, c.(I))
+				}
+				sr = StartProducer(env.Prod, "<input>", arr)
 			}
 			o, err := r.Transform(ctx, sr, opts...)
 			if err != nil {
